@@ -70,6 +70,12 @@ def run_case(case):
             from ..gen import is_async_spec
 
             descs.append((describe(r, sp), allowed_sets(r, sp) if not is_async_spec(sp) else None))
+        except HarnessError:
+            raise
+        except Exception as e:
+            # e.g. allowed_events of a valid rendering raising AttributeError: an observation, not a harness problem
+            return outcome(False, "C15:introspection-raises", f"rendering #{n} ({summ(style)}): states / events / allowed_events of the rendered machine raised {type(e).__name__}: {e}",
+                           labels=labels, case=dict(case, styles=[style]))
         finally:
             dispose(r)
         labels.add("states:" + style.get("states", "attr"))
